@@ -322,6 +322,7 @@ class EvalMixin:
         base = self.unwrap_opt(st, base, node)
         if isinstance(base.ty, T.Obj):
             sch = R.SCHEMAS[base.ty.family]
+            if sch.fields.get(attr) == "ignored": raise VCError("read of attribute %s declared 'ignored'" % attr)
             if attr in sch.fields:
                 v = SV(sch.fields[attr], self.hread(st, base.ty.family, attr, base.t))
                 self.assume_wf(st, v)
